@@ -19,7 +19,14 @@ Both families also contain two environment families (tape-chosen per run):
     run exactly once and quit/stop still has to stop every worker;
   * (b) limit changes over the whole legal range of adjustPoolsize - including 0 ("no workers at all") and the forms that
     give only one of the two values - checked against a harness-side model of the limit in force (the value last
-    requested), never against the pool's own attributes.
+    requested), never against the pool's own attributes;
+  * (a) a limit callable whose answer CHANGES while the Team is in use (a tape-chosen operation sets it to another value of 0..3, 0 = "no
+    worker can be had right now"): work collected while no worker could be had has to run once a later request (do, grow) finds that a
+    worker can be created, and a task is excused from running only when no worker existed and none could be created at its own submission
+    and at every later request;
+  * (b) stop() at any point of the pool's life - also on a pool that was never started - followed by USE AFTER STOP: a few tape-chosen
+    operations on the finished object (submissions, start(), limit changes, startAWorker/stopAWorker).  Each may be ignored or refused with
+    AlreadyQuit; none may make a task submitted after stop() run or report, create a worker or leave a pool thread alive.
 (b) also varies the CALLER's side of a submission (tape-chosen per run and per submission): onResult callbacks that themselves
 raise - an Exception or a bare BaseException, every time they are called or only the first time, after a function that succeeded as
 well as after one that failed - and plain callInThread submissions (no callback).  Every call of a callback is recorded before the
@@ -43,12 +50,19 @@ COMPONENTS = {"real": ["twisted._threads._team.Team", "twisted._threads._pool.po
                        "twisted.python.threadpool.ThreadPool (family b)"],
               "stub": ["family a: worker threads (in-memory workers stepped by the scheduler)",
                        "family b: OS thread scheduling and Thread/Queue/Lock/local (detsim.threads baton objects)"]}
-RULE = ("run = family a: 4..30 tape-chosen operations (do task that succeeds/raises, grow, shrink, quit, late do, 'worker i executes its next queued item') on a Team built by the real pool(); "
+RULE = ("run = family a: 4..30 tape-chosen operations (do task that succeeds/raises, grow, shrink, quit, late do, 'worker i executes its next queued item'; in 40% of the runs also "
+        "'the limit callable now answers v', v in 0..3) on a Team built by the real pool(); "
         "family b: 1..3 caller threads issuing callInThreadWithCallback (in 2 of 3 runs 30%/60% of the onResult callbacks raise - Exception or bare BaseException, always or on their first call only - "
-        "whether the function succeeded or failed; in half of the runs 20% of the submissions are plain callInThread)/adjustPoolsize (max 0..3, min 0..max, both values or only one)/startAWorker/stopAWorker concurrently with pool threads, then stop(); "
+        "whether the function succeeded or failed; in half of the runs 20% of the submissions are plain callInThread)/adjustPoolsize (max 0..3, min 0..max, both values or only one)/startAWorker/stopAWorker concurrently with pool threads, then stop() "
+        "(in 30% of the late-start runs the pool was never started), then 0..4 operations on the stopped pool (submit/start/adjustPoolsize/startAWorker/stopAWorker); "
         "both: in some runs the worker factory (a: createWorker's worker class, b: ThreadPool.threadFactory) raises with tape-drawn probability; "
         "non-trivial = some task had to wait in the backlog or a shrink/limit change happened while a worker was busy, or (b) a line-level pre-emption fired")
-ASSUMPTIONS = ["family a: the limit function is constant per run", "tasks do not submit further tasks",
+ASSUMPTIONS = ["family a: the limit function is constant in 60% of the runs; where it changes it changes between Team operations (the Team is told nothing: it finds out at its "
+               "next do/grow, so work backlogged under limit 0 that no later request follows gets no verdict), and lowering it does not oblige the Team to stop workers",
+               "tasks do not submit further tasks",
+               "use after stop(): the statement says submissions are refused, not how - silence and AlreadyQuit are both accepted for every operation except the first "
+               "plain submission (silently ignored, as documented by the existing clause late-submit-raised); a second stop() is not issued; tasks submitted BEFORE stop() to a "
+               "pool that was never started get no verdict when they never ran (no worker could ever be created: the limit of an unstarted pool is 0)",
                "a worker creation fails by the factory raising before any thread object exists (a Thread whose start() fails stays in ThreadPool.threads and makes "
                "stop() raise from join() on the unchanged tree; the statement is silent on that, so that variant is not injected)",
                "what the pool logs (an exception escaping from an onResult callback, the failure of a function submitted without a callback) is recorded instead of printed "
@@ -59,12 +73,18 @@ ASSUMPTIONS = ["family a: the limit function is constant per run", "tasks do not
                "or when start() was aborted by a torn (min, max) pair / a failed worker creation"]
 
 # Share of the family-b runs in which a limit change that RAISES the maximum from (possibly) 0 may keep the minimum at 0.
-# Before the round-4 repair of /repo such a change did not hand the backlog to a worker (nothing grew: workers >= min), so tasks accepted
+# Before the round-4 repair of /repo (a218f55) such a change did not hand the backlog to a worker (nothing grew: workers >= min), so tasks accepted
 # while the limit was 0 stayed stranded until some later submission happened to create a worker, and stop() dropped them: reported as
 # accepted-task-ran-and-reported-once:threadpool:limit-raised-from-zero (fixed entry in known_findings.json).  In the other runs such a
-# change always asks for min >= 1 (adjustPoolsize then grows a worker, which takes the backlog), so everything else about limit 0 is
-# exercised whether or not that defect is present.
+# change always asks for min >= 1 (adjustPoolsize then grows a worker, which takes the backlog).  The precondition is let into this
+# share (0.6) of the family-b runs; 0 is only for dev-time comparison with a tree without the repair.
 ZERO_RAISE_KEEPS_MIN0_P = 0.6
+
+# Share of the family-a runs in which the answer of the Team's limit callable changes while the Team is in use.
+LIVE_LIMIT_P = 0.4
+
+# Share of the late-start runs of family b in which the pool is stopped without ever having been started.
+NEVER_STARTED_P = 0.3
 
 
 # ------------------------------------------------------------------ family a
@@ -154,15 +174,24 @@ class _Local:
 
 
 def family_a(sim):
-    limit = sim.draw_choice([2, 1, 3, 0], "limit")
+    limit0 = sim.draw_choice([2, 1, 3, 0], "limit")
     nops = sim.draw_int(4, 30, "nops")
     create_fail_p = sim.draw_choice([0.0, 0.0, 0.15, 0.35], "create_fail_p")
-    sim.config = {"family": "team", "limit": limit, "nops": nops, "create_fail_p": create_fail_p}
+    # the limit is a callable the Team consults whenever it wants a worker: in some runs what it answers changes while the Team is in
+    # use (0 = "no worker can be had right now": a pool that is not open yet, a resource that is exhausted for a while)
+    live_limit = sim.draw_bool(LIVE_LIMIT_P, "live_limit")
+    sim.config = {"family": "team", "limit": limit0, "nops": nops, "create_fail_p": create_fail_p, "live_limit": live_limit}
     w = WorldA(sim)
+    lim = {"now": limit0, "lowered": False}
+    # one entry per operation at which the Team was asked for something that needs a worker (an accepted do, a grow): True when the
+    # Team could not have had a worker for it (no worker existed and the limit allowed none, or the factory failed during the operation)
+    no_worker_possible = []
+    submitted_at = {}      # task id -> index into no_worker_possible of its own submission
     saved = (_pool.ThreadWorker, _pool.Lock, _pool.LocalStorage, _pool.Queue)
 
     def make_worker(startThread, queue):
         live = sum(1 for x in w.workers if x.quit_calls == 0)
+        limit = lim["now"]
         sim.check("worker-created-within-limit", live < limit, "team", "worker created while %d live workers exist and the limit is %d" % (live, limit))
         if create_fail_p and sim.draw_bool(create_fail_p, "worker_create_fails"):
             sim.fault("worker_creation_failed")
@@ -178,16 +207,37 @@ def family_a(sim):
     accepted = []     # task ids whose do() returned normally before quit
     flags = {"backlog": 0, "busy_change": 0}
     try:
-        team = _pool.pool(lambda: limit)
+        team = _pool.pool(lambda: lim["now"])
         team._logException = lambda: logged.append(1)
         quit_done = False
         tid = 0
+
+        def worker_out_of_reach():
+            # harness-side view, taken before an operation: no live worker at all and the limit allows none
+            return not any(x.quit_calls == 0 for x in w.workers) and lim["now"] == 0
+
         for _ in range(nops):
             sim.step(500)
             runnable = [x for x in w.workers if x.queue]
-            ops = [("do", 6), ("exec", 8 if runnable else 0), ("grow", 1), ("shrink", 1), ("quit", 1 if not quit_done else 0)]
+            ops = [("do", 6), ("exec", 8 if runnable else 0), ("grow", 1), ("shrink", 1), ("quit", 1 if not quit_done else 0),
+                   ("limit", 2 if live_limit else 0)]
             op = sim.draw_weighted(ops, "op")
-            if op == "do":
+            limit = lim["now"]
+            if op == "limit":
+                new = sim.draw_choice([v for v in (0, 1, 2, 3) if v != limit], "new_limit")
+                sim.event("limit", new)
+                backlog = team.statistics().backloggedWorkCount
+                if new < limit:
+                    lim["lowered"] = True
+                    if any(x.quit_calls == 0 and (x.queue or x.in_task) for x in w.workers):
+                        flags["busy_change"] += 1
+                        sim.probe("limit_lowered_while_busy")
+                elif limit == 0:
+                    sim.probe("team_limit_raised_from_zero")
+                    if backlog:
+                        sim.probe("team_limit_raised_from_zero_with_backlog")
+                lim["now"] = limit = new
+            elif op == "do":
                 tid += 1
                 raises = sim.draw_bool(0.25, "raises")
                 kind = _raise_kind(sim) if raises else None
@@ -207,6 +257,7 @@ def family_a(sim):
 
                 sim.event("do", tid, "raises" if raises else "ok", "after-quit" if quit_done else "")
                 failed = False
+                out_of_reach = worker_out_of_reach()
                 try:
                     team.do(task)
                     refused = False
@@ -218,8 +269,11 @@ def family_a(sim):
                     failed = True
                     sim.event("do-failed", tid)
                 sim.check("refused-iff-quit", refused == quit_done, "team", "do() refused=%s but quit=%s" % (refused, quit_done))
+                if not quit_done:
+                    no_worker_possible.append(failed or out_of_reach)
                 if not refused and not failed:
                     accepted.append(tid)
+                    submitted_at[tid] = len(no_worker_possible) - 1
                     if team.statistics().backloggedWorkCount:
                         flags["backlog"] += 1
                         sim.probe("task_backlogged")
@@ -234,6 +288,8 @@ def family_a(sim):
                 n = sim.draw_int(1, 3, "n")
                 busy = team.statistics().busyWorkerCount
                 sim.event(op, n)
+                out_of_reach = worker_out_of_reach()
+                failed = False
                 try:
                     (team.grow if op == "grow" else team.shrink)(n)
                     refused = False
@@ -241,7 +297,10 @@ def family_a(sim):
                     refused = True
                 except WorkerCreationFailed:
                     refused = quit_done
+                    failed = True
                     sim.event("grow-failed")
+                if op == "grow" and not quit_done:
+                    no_worker_possible.append(failed or out_of_reach)
                 sim.check("refused-iff-quit", refused == quit_done, "team", "%s refused=%s quit=%s" % (op, refused, quit_done))
                 if busy and op == "shrink":
                     flags["busy_change"] += 1
@@ -253,7 +312,10 @@ def family_a(sim):
             for i, n in ran.items():
                 sim.check("task-at-most-once", n <= 1, "team", "task %d ran %d times" % (i, n))
             live = sum(1 for x in w.workers if x.quit_calls == 0)
-            sim.check("live-workers-within-limit", live <= limit, "team", "%d live workers, limit %d" % (live, limit))
+            if not lim["lowered"]:
+                # a Team does not stop workers by itself when the limit is lowered under it: the bound on LIVE workers is only the
+                # current limit while the limit never went down (the bound at creation time is checked in make_worker, always)
+                sim.check("live-workers-within-limit", live <= lim["now"], "team", "%d live workers, limit %d" % (live, lim["now"]))
             sim.state((min(live, 3), min(team.statistics().busyWorkerCount, 3), min(team.statistics().backloggedWorkCount, 3), quit_done))
         # drain: execute everything that is queued
         n = 0
@@ -270,11 +332,17 @@ def family_a(sim):
             w.current = None
         for i, cnt in ran.items():
             sim.check("task-at-most-once", cnt <= 1, "team", "task %d ran %d times" % (i, cnt))
-        if limit > 0:
-            missing = [i for i in accepted if ran.get(i, 0) != 1]
-            # a Team only dispatches backlog when a worker is recycled or grown; with limit > 0 the first task creates one
-            sim.check("accepted-task-ran-once", not missing, "team", "accepted tasks that never ran after everything drained: %r" % missing[:5])
-        else:
+        # "every task submitted before quit runs exactly once (unless no worker could ever be created)": a Team learns about the limit
+        # only when it is asked for something (do, grow), so a task that never ran is excused exactly when, at its own submission and at
+        # every later request, no worker existed and none could be created (limit 0 at that moment, or the factory failed).  Whenever a
+        # worker existed - busy ones come back and take waiting work - or could be created, nothing may be left behind once all
+        # workers have finished what they were given.
+        missing = [i for i in accepted if ran.get(i, 0) != 1 and not all(no_worker_possible[submitted_at[i]:])]
+        if [i for i in accepted if ran.get(i, 0) != 1] and not missing:
+            sim.probe("team_never_ran_no_verdict_no_worker_ever")
+        sim.check("accepted-task-ran-once", not missing, "team",
+                  "accepted tasks that never ran after everything drained although a worker existed or could be created at or after their submission: %r" % missing[:5])
+        if not live_limit and limit0 == 0:
             sim.check("no-worker-when-limit-zero", not w.workers, "team", "workers created with limit 0")
         if quit_done:
             alive = [x.idx for x in w.workers if x.quit_calls != 1]
@@ -361,6 +429,9 @@ def family_b(sim):
     ncallers = sim.draw_int(1, 3, "ncallers")
     preempt = sim.draw_choice([0.0, 0.05, 0.2], "preempt_p")
     start_late = sim.draw_bool(0.4, "start_late")
+    # stop() may come at any point of the pool's life, also before start() was ever reached (a shutdown hook that runs although
+    # start-up did not get that far): in some of the late-start runs nobody starts the pool before it is stopped
+    never_started = start_late and sim.draw_bool(NEVER_STARTED_P, "stopped_before_started")
     policy = sim.draw_choice(["uniform", "pct"], "sched_policy")
     if policy == "pct":
         preempt = sim.draw_choice([0.004, 0.015], "pct_change_p")   # few, long-lasting pre-emptions
@@ -373,7 +444,7 @@ def family_b(sim):
     # as well as after one that failed), and some submissions are plain callInThread (no callback: nothing to report to)
     cb_raise_p = sim.draw_choice([0.0, 0.3, 0.6], "onresult_raise_p")
     no_cb_p = sim.draw_choice([0.0, 0.2], "no_callback_p")
-    sim.config = {"family": "threadpool", "min": minthreads, "max": maxthreads, "callers": ncallers, "preempt_p": preempt, "start_late": start_late, "policy": policy,
+    sim.config = {"family": "threadpool", "min": minthreads, "max": maxthreads, "callers": ncallers, "preempt_p": preempt, "start_late": start_late, "never_started": never_started, "policy": policy,
                   "create_fail_p": create_fail_p, "raise_from_zero_may_keep_min0": keep_min0, "adjust_weight": adjust_w,
                   "onresult_raise_p": cb_raise_p, "no_callback_p": no_cb_p}
     L = LimitModel(minthreads, maxthreads)
@@ -383,7 +454,7 @@ def family_b(sim):
     real_TW = _pool.ThreadWorker
     quit_calls = []
     created = []
-    state = {"faults_armed": False, "creating_epoch": None}
+    state = {"faults_armed": False, "creating_epoch": None, "after_stop": ""}
 
     class RecordingWorker(real_TW):
         def __init__(self, startThread, queue):
@@ -395,6 +466,9 @@ def family_b(sim):
             if lim is not None and state["creating_epoch"] == L.epoch and not stop_called[0]:
                 sim.probe("creation_checked_against_requested_limit")
                 sim.check("worker-created-within-limit", live < lim, "threadpool", "worker thread created while %d live workers exist and the limit is %d" % (live, lim))
+            # once stop() has returned and every caller that raced with it is done, the pool is finished: whatever is done with the
+            # object afterwards, no further worker may come into existence
+            sim.check("no-worker-created-after-stop", not state["after_stop"], "threadpool", "a worker thread was created after stop() had returned (operation: %s)" % state["after_stop"])
             self._idx = len(created)   # Team keeps idle workers in a set: hash by creation order, not by address
             real_TW.__init__(self, startThread, queue)   # raises when the thread factory does: then no worker came into existence
             created.append(self)
@@ -611,7 +685,9 @@ def family_b(sim):
         concurrent_stop = sim.draw_bool(0.3, "concurrent_stop")
         limit_maybe_zero_at_stop = False
         starter = None
-        if start_late:
+        if never_started:
+            sim.probe("pool_never_started_before_stop")
+        elif start_late:
             # let callers queue work before the pool starts, then start it - on a thread of its own, so that start() interleaves
             # with submissions in progress at line granularity (a submission may be between reading the limit and enqueueing)
             for _ in range(sim.draw_int(0, 10, "prestart")):
@@ -649,7 +725,7 @@ def family_b(sim):
                     if not sched.step():
                         break
             if starter is not None:
-                sched.run(max_steps=20000, until=lambda: starter.state == "done")   # stop() is only called on a started pool
+                sched.run(max_steps=20000, until=lambda: starter.state == "done")   # a start() that was begun is finished before stop()
             stop_called[0] = True
             limit_maybe_zero_at_stop = 0 in L.mx
             sim.event("stop")
@@ -672,7 +748,12 @@ def family_b(sim):
 
         missing = [i for i in submitted_before_stop if ran.get(i, 0) != 1 or len(results.get(i, [])) != want(i)]
         witness = "threadpool"
-        if state.get("start_aborted_by_torn_limits"):
+        if never_started:
+            # "unless no worker could ever be created": the limit of a pool that is not started is 0 from the first submission to stop()
+            # (creations are checked against that limit where they happen): no verdict on tasks that never ran
+            sim.probe("never_ran_no_verdict_pool_never_started") if missing else None
+            missing = [i for i in missing if ran.get(i, 0) > 1 or len(results.get(i, [])) > 1]
+        elif state.get("start_aborted_by_torn_limits"):
             missing = [i for i in missing if ran.get(i, 0) > 1 or len(results.get(i, [])) > 1]   # never-ran gets no verdict; twice still does
         elif limit_maybe_zero_at_stop or L.zero_torn or (L.zero_seen and state.get("grow_failed_in_adjust")):
             # "unless no worker could ever be created": the limit was (possibly) 0 when the pool was stopped, or concurrent limit setters
@@ -683,12 +764,51 @@ def family_b(sim):
             witness = "threadpool:limit-raised-from-zero"
         sim.check("accepted-task-ran-and-reported-once", not missing, witness,
                   "tasks submitted before stop() that did not run/report exactly once: %r (ran=%r)" % (missing[:5], {i: ran.get(i) for i in missing[:5]}))
-        # late submission after stop(): silently ignored, never run
+        # use after stop(): the pool is finished.  A submission is silently ignored; whatever else is done with the object afterwards
+        # (further submissions, start(), limit changes, startAWorker/stopAWorker - each may be ignored or refused with AlreadyQuit, the
+        # statement does not say which) no task submitted after stop() ever runs or reports, no worker is created, no pool thread lives.
         before = dict(ran)
+        before_results = {i: list(r) for i, r in results.items()}
+        late = {"ran": [], "reported": []}
+        state["after_stop"] = "submit"
         with sim.guard("late-submit-raised", "threadpool"):
-            pool.callInThreadWithCallback(None, lambda: ran.__setitem__("late", 1))
+            pool.callInThreadWithCallback(None, lambda: late["ran"].append("late"))
         sched.run(max_steps=200)
-        sim.check("no-task-after-stop", ran == before, "threadpool", "a task submitted after stop() ran")
+        sim.check("no-task-after-stop", ran == before and not late["ran"], "threadpool", "a task submitted after stop() ran")
+        for k in range(sim.draw_int(0, 4, "after_stop_ops")):
+            aop = sim.draw_weighted([("start", 3), ("submit", 3), ("adjust", 1), ("startw", 1), ("stopw", 1)], "after_stop_op")
+            state["after_stop"] = aop
+            sim.event("after-stop", aop)
+            sim.probe("used_after_stop_" + aop)
+            try:
+                if aop == "start":
+                    pool.start()
+                elif aop == "submit":
+                    pool.callInThreadWithCallback(lambda ok, res, k=k: late["reported"].append(k), lambda k=k: late["ran"].append(k))
+                elif aop == "adjust":
+                    mx = sim.draw_int(1, 3, "newmax")
+                    pool.adjustPoolsize(sim.draw_int(0, mx, "newmin"), mx)
+                elif aop == "startw":
+                    pool.startAWorker()
+                else:
+                    pool.stopAWorker()
+            except AlreadyQuit:
+                sim.probe("use_after_stop_refused_with_AlreadyQuit")
+            except AssertionError:
+                # start() re-reads the stored (min, max) pair, which overlapping limit setters may have left out of order (see adjust above): no verdict
+                sim.check("legal-limit-change-accepted", aop == "start", "threadpool:after-stop", "%s after stop() tripped an assertion" % aop)
+                sim.probe("torn_limit_pair_seen")
+            except T.Deadlock as e:
+                sim.fail("deadlock", "threadpool:after-stop", str(e))
+            try:
+                sched.run(max_steps=2000)
+            except T.Deadlock as e:
+                sim.fail("deadlock", "threadpool:after-stop", str(e))
+            sim.check("no-task-after-stop", not late["ran"] and not late["reported"], "threadpool",
+                      "tasks submitted after stop() ran %r / reported %r (after %s)" % (late["ran"][:5], late["reported"][:5], aop))
+            alive = [t.name for t in pool.threads if t.state != "done"]
+            sim.check("no-live-thread-after-stop", not alive, "threadpool", "pool threads alive after stop() had returned (after %s): %r" % (aop, alive))
+        sim.check("no-report-after-stop", results == before_results, "threadpool", "an onResult callback of a task submitted before stop() was called again during use after stop()")
     finally:
         sched.shutdown()
         _pool.Queue, _pool.Lock, _pool.LocalStorage, _pool.ThreadWorker = saved
@@ -717,11 +837,20 @@ MUTANTS = [
     "threadpool.adjustPoolsize: None defaults written as `x or self.x` (0 taken for 'not given') -> CAUGHT worker-created-within-limit:threadpool / legal-limit-change-accepted",
     "_threadworker.LockWorker.do: `local.working = None` dropped from the finally (stale re-entrancy marker after a raising job) -> CAUGHT accepted-task-ran-once:team / "
     "all-workers-stopped-after-quit:team / accepted-task-ran-and-reported-once:threadpool",
-    "threadpool.adjustPoolsize + `grow(0); grow(backlog)` after the min/max adjustment (candidate repair of limit-raised-from-zero) -> check holds with ZERO_RAISE_KEEPS_MIN0_P = 1.0; "
+    "threadpool.adjustPoolsize + `grow(0); grow(backlog)` after the min/max adjustment (the repair of limit-raised-from-zero, in /repo a218f55) -> check holds with ZERO_RAISE_KEEPS_MIN0_P = 1.0; "
     "without the serialising grow(0) a submission pre-empted between the limit read and the backlog append is still stranded -> CAUGHT",
     "round 5 (raising onResult callbacks, callback-less submissions, pool-thread containment):",
     "threadpool.inContext: onResult(True, result) called inside the try whose except arm reports (False, Failure()) -> CAUGHT result-exactly-once:threadpool",
     "threadpool.inContext: `inContext.onResult(ok, result)` wrapped in try/except Exception that reports (False, Failure()) to the same callback -> CAUGHT result-exactly-once:threadpool",
     "_team doWork: except BaseException -> except Exception -> now also CAUGHT in family b (task-exception-escaped:threadpool:BaseException: a callback raising a bare BaseException ends the pool thread)",
     "threadpool.inContext: `elif not ok` -> `else` (log.err for every callback-less task) -> survives (logging only: outside the statement)",
+    "round 6 (limit callable that changes under a Team; stop() on a never-started pool; use after stop()):",
+    "_team._coordinateThisTask: a task that finds no worker is dropped instead of queued when a backlog exists and nobody is busy -> CAUGHT accepted-task-ran-once:team / accepted-task-ran-and-reported-once:threadpool",
+    "_pool.limitedWorkerCreator: compares with the highest limit ever seen instead of the current one -> CAUGHT worker-created-within-limit:team (limit lowered live) / :threadpool",
+    "threadpool.stop: `self._team.quit()` only when the pool has threads (a never-started pool is not finished by stop()) -> CAUGHT no-worker-created-after-stop:threadpool",
+    "threadpool.callInThreadWithCallback: `if self.joined and self.threads: return` -> CAUGHT late-submit-raised:threadpool:AlreadyQuit",
+    "_team.grow: grown worker put into _idle without _recycleWorker (does not take the backlog) -> CAUGHT accepted-task-ran-and-reported-once:threadpool",
+    "observations on the unchanged tree, outside the statement (no clause): ThreadPool.adjustPoolsize computes its shrink from `workers`, which still counts busy workers already "
+    "marked by an earlier deferred shrink (4 busy, max 4 -> 3 -> 2 leaves 1 worker: fewer than the limit allows, never more; no task is lost); Team doWork: a logException that itself "
+    "raises skips idleAndPending (the worker stays counted busy) - the statement quantifies over tasks that raise, not over a raising log hook",
 ]
